@@ -115,6 +115,8 @@ type ConstSpec struct {
 	Type    string   `json:"type,omitempty"`  // explicit type name, "" = none (implicit repetition or untyped)
 	Exprs   []string `json:"exprs,omitempty"` // expressions as written; empty = implicit repetition
 	Comment string   `json:"comment,omitempty"`
+	// BlockComment: the trailing comment is written /* like this */ (same text for go/ast's Text())
+	BlockComment bool `json:"block_comment,omitempty"`
 	// reference model, filled by the generator: for every name its enum type ("" if not a typed
 	// constant of a local named type) and the exact value string as constant.Value.ExactString prints it
 	OfType []string `json:"oftype"`
@@ -326,7 +328,9 @@ func renderBlock(b *Block) string {
 		if len(cs.Exprs) > 0 {
 			s += " = " + strings.Join(cs.Exprs, ", ")
 		}
-		if cs.Comment != "" {
+		if cs.Comment != "" && cs.BlockComment {
+			s += " /* " + cs.Comment + " */"
+		} else if cs.Comment != "" {
 			s += " // " + cs.Comment
 		}
 		return s
